@@ -113,8 +113,8 @@ PROPS = {
         'targets': ['Corr/Dispatch.vo', 'Proto/Run.vo'],
     },
     'C18': {
-        'level_text': "Theorems: the three state changes (AKE completion, End, Send while finished) with their exact events and key/queue effects, for all states. Every run, compared with the machine: the lifecycle phase sweep of C03 (incl. the peer's disconnect built without padding by the independent reference sender, a further session and a retransmission request at the end) plus random lifecycles; oracles: GoneSecure/GoneInsecure/StillSecure exactly on the flips of IsEncrypted, Send refuses after peer disconnect, each text received at most once plain and once marked resent.",
-        'level_note': 'the frame property (only these places change the message state, over all branches of step) is checked by correspondence + oracle, not yet by one theorem.',
+        'level_text': "Theorems: C18_call_events_track_status - for EVERY call (Send, Receive of anything, End, SMP, extra key) on EVERY state the security events it reports are exactly a legal track from the encrypted status before to the status after (GoneSecure only from not-encrypted to encrypted, StillSecure only while encrypted, GoneInsecure only from encrypted to not-encrypted, nothing else moves the status); C18_encrypted_exactly_between_events - over EVERY history of calls a conversation is encrypted exactly when the events raised so far say so; only Receive and End ever change the message state (frame calculus over the conversation monad, every definition of the machine walked through, Proto/Lifecycle.v); the three state changes (AKE completion, End, Send while finished) with their exact events and key/queue effects. Every run, compared with the machine: the lifecycle phase sweep of C03 (incl. the peer's disconnect built without padding by the independent reference sender, a further session and a retransmission request at the end) plus random lifecycles; oracles: GoneSecure/GoneInsecure/StillSecure exactly on the flips of IsEncrypted, Send refuses after peer disconnect, each text received at most once plain and once marked resent.",
+        'level_note': 'the retransmission discipline (each text at most once plain and once resent) is decided by the correspondence runs and the oracle, not by theorem.',
         'trusted': ['the conversation model is symbolic: DH values are exponent ids, shared secrets unordered pairs, keys (secret, role) terms, a MAC verifies iff it was computed with the same key over the same fields (perfect-cryptography idealisation)', 'internal projections (key ids, list lengths, state names) are read through the verif-tagged hook VerifSnapshot'],
         'assumptions': [],
         'targets': ['Corr/Dispatch.vo', 'Proto/Run.vo'],
